@@ -24,6 +24,18 @@ def gen(ctx, rng, per):
                 tol = 10.0 ** (-rng.uniform(3, 10))
                 cases.append(ivpgen.accuracy_case(rng, solver, fam, tol))
                 cases[-1]["acc"] = "local"
+        # growing solutions: the multistep solvers double their step after a few accepted steps and have a freshly taken
+        # start-up rejected now and then - the roll-back paths
+        if solver in ("bdf6", "bdf2", "adams5", "adams3"):
+            for amp in (1.0, 30.0):
+                for _ in range(max(2, per) if solver.startswith("bdf") else max(1, per // 2)):
+                    tol = 10.0 ** (-rng.uniform(5, 9))
+                    c = ivpgen.accuracy_case(rng, solver, ["grow"], tol, dim=rng.randint(1, 2), span=rng.uniform(2.5, 3.0))
+                    # the larger start is not compensated in the step bound here: the growth itself (e^3) already takes the
+                    # state through that range, and the unchanged code keeps its local error within a few tol on it
+                    c["y0"] = [ivpgen.cpair(amp * vlib.pair_to_float(z[0])) for z in c["y0"]]
+                    c["acc"] = "local"
+                    cases.append(c)
         # large states: the tolerance is absolute, so it must be met for |y| >> 1 too (linear families, exact flows)
         for amp in (30.0, 1000.0):
             for fam in (["lin"], ["rot", "lin"]):
